@@ -319,6 +319,8 @@ fn model(
 pub const DEFECT_LF0: u64 = 1 << 40;
 pub const DEFECT_LPF: u64 = 1 << 41;
 pub const BODY_MASK: u64 = (1 << 40) - 1;
+/// the header's string fields carry (valid) non-ASCII text: a Japanese COMMENT of well over 40 bytes
+pub const NONASCII_TEXT: u64 = 1 << 42;
 
 /// Point the highest-numbered leaf (>= 2) of a tree section at a PDF index that does not exist.
 fn break_one_leaf(tree: &mut Vec<u8>, prefix: &str) {
@@ -440,12 +442,13 @@ pub fn build(spec: &VoiceSpec, pool: &QuestionPool) -> Vec<u8> {
     let mut h = String::new();
     let _ = write!(
         h,
-        "[GLOBAL]\nHTS_VOICE_VERSION:1.0\nSAMPLING_FREQUENCY:{}\nFRAME_PERIOD:{}\nNUM_STATES:{}\nNUM_STREAMS:{}\nSTREAM_TYPE:{}\nFULLCONTEXT_FORMAT:HTS_TTS_JPN\nFULLCONTEXT_VERSION:1.0\nGV_OFF_CONTEXT:\"*-sil+*\",\"*-pau+*\"\nCOMMENT:\n",
+        "[GLOBAL]\nHTS_VOICE_VERSION:1.0\nSAMPLING_FREQUENCY:{}\nFRAME_PERIOD:{}\nNUM_STATES:{}\nNUM_STREAMS:{}\nSTREAM_TYPE:{}\nFULLCONTEXT_FORMAT:HTS_TTS_JPN\nFULLCONTEXT_VERSION:1.0\nGV_OFF_CONTEXT:\"*-sil+*\",\"*-pau+*\"\nCOMMENT:{}\n",
         m.rate,
         m.fperiod,
         m.nstate,
         names.len(),
-        names.join(",")
+        names.join(","),
+        if spec.body & NONASCII_TEXT != 0 { "日本語の音声モデルです。検証のために生成された声で、実在の話者ではありません。" } else { "" }
     );
     h.push_str("[STREAM]\n");
     for n in &names {
